@@ -6,7 +6,9 @@
    evaluation on one frame.  The theorems: the streamed result for each batch is pandas on that batch, and
    concatenating the per-batch results gives pandas on the concatenated table. *)
 From Coq Require Import List ZArith QArith Qcanon Bool Lia.
-From SZ Require Import DF.Frames DF.Agg DF.AggProofs.
+From SZ Require Import DF.Frames.
+From SZ Require Import DF.Agg.
+From SZ Require Import DF.AggProofs.
 Import ListNotations.
 Local Open Scope Qc_scope.
 
